@@ -22,10 +22,10 @@ for p in IDS:
     }
 # every tier runs in both arithmetic profiles: wrapped arithmetic gives a wrong value instead of a panic
 # memory-safety legs (unsafe blocks on the format / serde paths, "returns normally")
-PLAN["C03"]["quick"] += [miri(2)]
+PLAN["C03"]["quick"] += [miri(1)]
 PLAN["C03"]["thorough"] += [miri(16), asan("quick"), valgrind()]
 PLAN["C04"]["thorough"] += [miri(8)]
-PLAN["C15"]["quick"] += [miri(2)]
+PLAN["C15"]["quick"] += [miri(1)]
 PLAN["C15"]["thorough"] += [miri(16), asan("quick")]
 
 RULES = {
